@@ -10,10 +10,44 @@ import (
 )
 
 // verifyFunc generates all obligations for one function under contract.
+//
+// The heap regions of a unit are registered lazily, but a call that may write
+// everything (`modifies *`, an unknown callee) must havoc every region the function
+// ever reads, including those first touched after the call. The function is therefore
+// encoded repeatedly, each pass seeded with the regions (and datatype sorts) the
+// previous pass discovered, until no new region appears.
 func (e *Engine) verifyFunc(fc *FuncContract, proved map[string]bool) *Unit {
+	var seed *Unit
+	for pass := 0; ; pass++ {
+		u := e.verifyFuncPass(fc, proved, seed)
+		if len(u.errs) > 0 && seed == nil || pass >= 3 {
+			return u
+		}
+		if seed != nil && len(u.rsorts) == len(seed.rsorts) {
+			return u
+		}
+		seed = u
+	}
+}
+
+func (e *Engine) verifyFuncPass(fc *FuncContract, proved map[string]bool, seed *Unit) *Unit {
 	name := shortPkg(fc.Pkg) + "." + fc.Target
 	fn := e.findFunc(fc)
 	u := newUnit(e, fn, fc, name)
+	if seed != nil {
+		for r, s := range seed.rsorts {
+			u.rsorts[r] = s
+		}
+		for k := range seed.te.structSorts {
+			u.te.structSorts[k] = true
+		}
+		for _, d := range seed.sc.sorts {
+			u.sc.sorts = append(u.sc.sorts, d)
+		}
+		for k := range seed.sc.sortSeen {
+			u.sc.sortSeen[k] = true
+		}
+	}
 	if fn == nil {
 		u.errorf("function %s::%s not found in the loaded program", fc.Pkg, fc.Target)
 		return u
@@ -442,7 +476,7 @@ func (u *Unit) frameCond(f *Frame, region string, heap, entryHeap Heap) (Term, b
 	if cur.S == h0.S {
 		return tTrue, false
 	}
-	if strings.HasPrefix(region, "G_") {
+	if strings.HasPrefix(region, "G_") || strings.HasPrefix(region, "GG_") {
 		return mkEq(cur, h0), true
 	}
 	sk := u.sc.fresh("frame_r", SInt)
@@ -554,6 +588,10 @@ func (u *Unit) frameSets(f *Frame, fc *FuncContract, pkg *types.Package, entryHe
 					whole[globalRegion(gv)] = true
 					continue
 				}
+			}
+			if region, _, ok := u.globalGhost(x.Name); ok {
+				whole[region] = true
+				continue
 			}
 			u.errorf("modifies %q: unknown", m)
 			return fail()
